@@ -9,8 +9,11 @@ from . import dag as D
 
 
 class UF:
-    def __init__(self, dag):
+    def __init__(self, dag, alias=None):
+        """alias: node id -> node id known to hold the bit-identical value (equality tests that came out true on the recorded
+        path); the aliased node is canonicalised as its target, so node identity is decided modulo these equalities."""
         self.dag = dag
+        self.alias = alias or {}
         self.canon = {}
         self.table = {}
         self.terms = []
@@ -30,6 +33,9 @@ class UF:
         nodes = self.dag.nodes
         for j in self.dag.slice([i]):
             if j in self.canon:
+                continue
+            if j in self.alias and self.alias[j] != j:
+                self.canon[j] = self.cid(self.alias[j])
                 continue
             n = nodes[j]
             op = n[0]
@@ -68,7 +74,7 @@ class UF:
         return self.cid(i) == self.cid(j)
 
     # --- z3 cross-check over canonical terms
-    def z3_all_equal(self, pairs):
+    def z3_all_equal(self, pairs, hyps=()):
         """pairs: [(node_i, node_j)] - returns list of bools decided by z3 QF_UF (unsat of a != b)."""
         S = z3.DeclareSort('F')
         f2 = {op: z3.Function(D.OPN[op], S, S, S) for op in (D.ADD, D.SUB, D.MUL, D.DIV)}
@@ -98,6 +104,8 @@ class UF:
 
         out = []
         s = z3.SolverFor('QF_UF')
+        for (x, y) in hyps:      # equality tests of the recorded path that came out true: bit-equal operands
+            s.add(term(self.cid(x)) == term(self.cid(y)))
         for (i, j) in pairs:
             a, b = term(self.cid(i)), term(self.cid(j))
             s.push()
